@@ -164,6 +164,13 @@ def run(rep: Report, tier: str) -> None:
 	imports = any(isinstance(n, ast.Attribute) and n.attr == 'imports' for n in nodes(icl))
 	ident.check(own_file and imports and has_call(icl, 'hash'), 'symbols:identity-covers-self-and-imports', idf.where,
 		'Module.identity no longer hashes the module file itself and its direct imports')
+	# the cached symbol table of a module holds types inferred THROUGH its imports (c: `x = b.make().value` with `value` declared in a, imported by b only):
+	# its identity must change when any module of the transitive import closure changes, not only a direct import
+	gcl = closure(gen) if gen is not None else []
+	transitive = any(isinstance(c_, ast.Call) and isinstance(c_.func, ast.Attribute) and c_.func.attr in ('identity', 'dependencies') and unparse(c_.func.value) not in ('module', 'self') for c_ in nodes(icl + gcl, ast.Call)) \
+		or any(isinstance(c_, ast.Call) and isinstance(c_.func, ast.Attribute) and c_.func.attr == 'identity' and unparse(c_.func.value) == 'self' for c_ in nodes(icl, ast.Call))
+	ident.check(transitive, 'symbols:identity-covers-transitive-imports', idf.where,
+		'Module.identity hashes the module file and the files of its DIRECT imports only; the symbol table cached under that identity depends on every module reachable through imports, so after editing a module two hops away the stale table is restored (warm `int z = x;`, cold `std::string z = x;`)')
 	restore_uses_same = persistor.method('restore'), persistor.method('store'), persistor.method('stored')
 	for m in restore_uses_same:
 		calls = [attr_chain(n.func) for n in ast.walk(m.node) if isinstance(n, ast.Call)]
